@@ -159,9 +159,12 @@ pub fn synthesize(model: &Model, version: u8, choices: &[u16], surplus_fat: usiz
     synthesize_opts(model, version, choices, surplus_fat, 0)
 }
 
-/// `force_list`: 0 = generated shapes, 1 = every sibling tree a right-leaning list,
-/// 2 = left-leaning list (degenerate trees of any size; all black).
+/// `force_list` bits 0-1: 0 = generated shapes, 1 = every sibling tree a right-leaning list,
+/// 2 = left-leaning list (degenerate trees of any size; all black). Bit 2 (value 4): the
+/// FAT sector listed last in the DIFAT is placed at sector 0.
 pub fn synthesize_opts(model: &Model, version: u8, choices: &[u16], surplus_fat: usize, force_list: u8) -> (Vec<u8>, LayoutInfo) {
+    let pin_last_fat_at_zero = force_list & 4 != 0;
+    let force_list = force_list & 3;
     let mut ch = Choices::new(choices);
     let mut info = LayoutInfo::default();
     let sl: usize = if version == 3 { 512 } else { 4096 };
@@ -338,6 +341,12 @@ pub fn synthesize_opts(model: &Model, version: u8, choices: &[u16], surplus_fat:
     // assign sector numbers
     let mut ids: Vec<u32> = (0..total as u32).collect();
     ch.permute(&mut ids);
+    if pin_last_fat_at_zero {
+        let want = dir_sectors + minifat_sectors + ministream_sectors + fat_sectors - 1;
+        if let Some(z) = ids.iter().position(|&v| v == 0) {
+            ids.swap(z, want);
+        }
+    }
     let mut take = |k: usize| -> Vec<u32> {
         let v: Vec<u32> = ids.drain(..k).collect();
         v
